@@ -82,12 +82,44 @@ class Agg:
         self.npaths += len(ex.paths)
         return ex
 
-    def discharge(self, name, ex, bad_terms, describe):
+    def note_cut(self, label, ex):
+        """paths cut by the unroll bound are outside the claim: recorded, never silently dropped"""
+        self.cuts = getattr(self, "cuts", {})
+        self.cuts[label] = {"paths": len(ex.paths), "cut_by_unroll_bound": ex.cut, "unroll": ex.unroll}
+
+    def replay_cases(self, exe, data, cases, prefix=""):
+        """native replay recipe: single-clause rules with their documented status on a fixed document; reproduced =
+        the real CLI (built from the tree under analysis) reports a different status for at least one of them"""
+        out = []
+        for clause, exp in cases:
+            rules = prefix + f"rule t {{\n  {clause}\n}}\n"
+            rc, rep, err = self.run_structured(exe, rules, [data])
+            if not (rep and isinstance(rep, list) and rep):
+                out.append({"clause": clause, "expected": exp, "observed": None, "exit": rc, "stderr": (err or "")[-200:]})
+                continue
+            r = rep[0]
+            got = "PASS" if "t" in r.get("compliant", []) else ("SKIP" if "t" in r.get("not_applicable", []) else "FAIL")
+            out.append({"clause": clause, "expected": exp, "observed": got})
+        badc = [o for o in out if o["observed"] is not None and o["expected"] != o["observed"]]
+        return {"reproduced": bool(badc), "data": data, "mismatches": badc, "cases": out}
+
+    def discharge(self, name, ex, bad_terms, describe, witness=True):
         """bad_terms: list of SMT terms, each = (path condition AND NOT good); all must be unsat"""
         if not bad_terms:
             bad_terms = ["false"]
-        st = self.ob.check(name, ex.decls, ex.side, "(or " + " ".join(bad_terms) + ")", describe)
-        return self.ob.items[-1] if st == "refuted" else None
+        if len(bad_terms) > 150:
+            st = self.ob.check_many(name, ex.decls, ex.side, bad_terms, describe)
+        else:
+            st = self.ob.check(name, ex.decls, ex.side, "(or " + " ".join(bad_terms) + ")", describe)
+        item = self.ob.items[-1]
+        item["paths"], item["cut_by_unroll_bound"], item["unroll"] = len(ex.paths), ex.cut, ex.unroll
+        if st == "proved" and witness:
+            # vacuity witness: the side conditions are consistent and at least one Ok-returning path is feasible
+            oks = [pc_term(p.pc) for p in ex.paths if p.outcome == "return"][:400]
+            self.ob.check(name + "/witness", ex.decls, ex.side, "(or false " + " ".join(oks) + ")",
+                          "vacuity witness: some returning path of the encoded function is feasible under the side conditions",
+                          expect="refuted")
+        return item if st == "refuted" else None
 
     # ------------------------------------------------------------------------------------------
     def eval_rules_file(self):
@@ -656,7 +688,20 @@ SITES = {
 
 
 def run(prop, mir, src, ob):
+    import mirblocks
     a = Agg(mir, src, ob)
     for s in SITES.get(prop, []):
         getattr(a, s)()
+    for f in mirblocks.SITES.get(prop, []):
+        try:
+            f(a)
+        except Untranslatable as e:
+            # the function was renamed / restructured beyond what the executor reads: inconclusive, never a pass
+            ob.items.append({"obligation": f.__name__, "describe": "not translatable: " + str(e), "verdicts": {},
+                             "status": "inconclusive", "model": None})
     return a
+
+
+def has_sites(prop):
+    import mirblocks
+    return prop in SITES or prop in mirblocks.SITES
